@@ -91,8 +91,6 @@ def gen_entities():
     import html
     from html.entities import html5
     from bs4.dammit import EntitySubstitution as E
-    from bs4.formatter import HTMLFormatter, XMLFormatter
-
     amp_parts, ok1 = parse_pattern(E.CHARACTER_TO_HTML_ENTITY_WITH_AMPERSAND_RE.pattern)
     parts, ok2 = parse_pattern(E.CHARACTER_TO_HTML_ENTITY_RE.pattern)
     # canonical order (sorted by key): the order inside the pattern comes from iterating a `set` of str and differs
@@ -150,6 +148,16 @@ def gen_entities():
     t += ("def htmlTable : Tbl := { particles := particles, particlesAmp := particlesAmp, toName := toName, toChar := toChar, "
           "html5 := html5, cp1252 := cp1252, invalidCharrefs := invalidCharrefs, invalidCodepoints := invalidCodepoints, "
           "word := wordRanges, digit := digitRanges }\n")
+    t += "end BS.Gen\n"
+    yield "Entities.lean", t
+
+
+def gen_formatters():
+    """the formatter registries and the defaults of `cdata_containing_tags` (small file of its own: a change here must not
+    force the big entity tables to be re-elaborated)"""
+    from bs4.dammit import EntitySubstitution as E
+    from bs4.formatter import Formatter, HTMLFormatter, XMLFormatter
+    t = HEADER + "import BSModel.Model.Entities\nnamespace BS.Gen\nopen BS.Entities\n"
     # formatter registry: name -> which substitution function
     fn_code = {None: 0}
     for i, nm in enumerate(["substitute_xml", "substitute_html", "substitute_html5",
@@ -173,8 +181,16 @@ def gen_entities():
     t += "    (0 None, 1 substitute_xml, 2 substitute_html, 3 substitute_html5, 4 …_containing_entities, 5 …_html5_raw, 99 other), cdata_containing_tags -/\n"
     t += f"def htmlRegistry : List RegEntry := {reg(HTMLFormatter.REGISTRY)}\n"
     t += f"def xmlRegistry : List RegEntry := {reg(XMLFormatter.REGISTRY)}\n"
+    def names(xs):
+        return "[" + ", ".join(lean_nat_list(code(x)) for x in sorted(xs)) + "]"
+
+    t += "/-- Formatter.HTML_DEFAULTS['cdata_containing_tags'] -/\n"
+    t += f"def htmlDefaultCdata : List PStr := {names(Formatter.HTML_DEFAULTS['cdata_containing_tags'])}\n"
+    t += "/-- cdata_containing_tags of Formatter(language='xml') and of Formatter(language='html') built with the option left at None -/\n"
+    t += f"def xmlFormatterCdata : List PStr := {names(Formatter(language=Formatter.XML).cdata_containing_tags)}\n"
+    t += f"def htmlFormatterCdata : List PStr := {names(Formatter(language=Formatter.HTML).cdata_containing_tags)}\n"
     t += "end BS.Gen\n"
-    yield "Entities.lean", t
+    yield "EntitiesFormatters.lean", t
 
 
-ALL = [gen_entities]
+ALL = [gen_entities, gen_formatters]
